@@ -21,6 +21,9 @@
 (*   nomatch  [no-match]     regular file, no line matches                 *)
 (*   binary   [binary]       NUL byte first, a matching line after it      *)
 (*   perm     [cannot-open]  regular file, mode 000                        *)
+(*   preperm  [cannot-open]  the same, selected for a --pre command that    *)
+(*                           does not mind (it exits 0 whatever happens):   *)
+(*                           ripgrep itself must notice the unreadable file *)
 (*   dangling [cannot-open]  path that vanished: dangling symlink (named   *)
 (*                           explicitly; a walk skips symlinks silently)   *)
 (*   linkL    [cannot-open]  dangling symlink met by a walk that follows   *)
@@ -61,7 +64,7 @@ VARIABLES scn, pc
 vars == <<scn, pc>>
 
 \* ---------------------------------------------------------------- vocabulary
-Kinds    == {"match", "prematch", "nomatch", "binary", "perm", "dangling", "linkL", "dir000", "dir444", "eio", "prefail"}
+Kinds    == {"match", "prematch", "preperm", "nomatch", "binary", "perm", "dangling", "linkL", "dir000", "dir444", "eio", "prefail"}
 Modes    == {"standard", "quiet", "l", "c", "files", "json", "fwm"}
 Namings  == {"explicit", "traversal"}
 ArgKinds == {"ok", "badregex", "badglob", "badenc", "badflag"}
@@ -69,14 +72,14 @@ ArgKinds == {"ok", "badregex", "badglob", "badenc", "badflag"}
 Class(k) == CASE k \in {"match", "prematch"} -> "has-match"
               [] k = "nomatch" -> "no-match"
               [] k = "binary"  -> "binary"
-              [] k \in {"perm", "dangling", "linkL", "dir000", "dir444"} -> "cannot-open"
+              [] k \in {"perm", "preperm", "dangling", "linkL", "dir000", "dir444"} -> "cannot-open"
               [] k \in {"eio", "prefail"}             -> "read-error"
 
 Healthy(k) == k \in {"match", "prematch", "nomatch", "binary"}
 
 \* the step of processing a path at which a faulty kind fails
 FailStage(k) == CASE k \in {"dangling", "linkL", "dir000"} -> "list"
-                  [] k \in {"perm", "dir444"}       -> "open"
+                  [] k \in {"perm", "preperm", "dir444"} -> "open"
                   [] k \in {"eio", "prefail"}     -> "read"
 
 \* the steps a mode performs on every path
